@@ -1,6 +1,7 @@
 LC_HEADER = ('From LC Require Import Lib.Bytes Model.MountInfo Model.FsTree Model.Kernel Model.Layers Cases.LC Cases.C03.\n'
              'Open Scope string_scope.\n')
 PROP = dict(
+    pidns=True,
     go='c03', n_quick=200, n_thorough=2000,
     coq_header=LC_HEADER,
     referee='cdom', referee_quick=3, referee_thorough=40,
